@@ -6,4 +6,5 @@ CONSTANTS
   Alpha = "full"
   MaxLen = 0
   MaxDepth = 0
+  Lax = FALSE
 CHECK_DEADLOCK FALSE
